@@ -155,13 +155,15 @@ def run_life(case):
             # the device's parameter values differ from session to session
             for i_, p_ in enumerate(spec['param_toc']):
                 env.device.values[i_] = (ai * 3 + i_ + 1) if p_['type'] not in (6, 7) else ai * 1.5 + i_
-            if not at.get('final') and at.get('close_at') is None and not at.get('fault') and not (at.get('close_in_cb') and not at.get('sync')):
+            if at.get('nodriver'):
+                at = dict(at, fault=None, close_at=None, close_in_cb=None)
+            elif not at.get('final') and at.get('close_at') is None and not at.get('fault') and not (at.get('close_in_cb') and not at.get('sync')):
                 at = dict(at, close_at=3.0)
             elif not at.get('final') and at.get('close_at') is None:
                 at = dict(at, close_at=25.0, late_close=True)   # the fault may never fire (k beyond the traffic): close eventually
             desc = 'spec(nlog=%d nparam=%d mems=%r v=%d resend=%r delays=%r) attempt %d of %r' % (
                 case['nlog'], case['nparam'], case['mems'], case['version'], case['needs_resending'], case['delays'][:5], ai,
-                [(a.get('fault'), a.get('close_at'), a.get('sync')) for a in attempts])
+                [(a.get('nodriver') or a.get('fault'), a.get('close_at'), a.get('sync')) for a in attempts])
             ev0 = len(rec.events)
             session = len(env.world.links)
             env.world.fault_fired = False
@@ -192,7 +194,34 @@ def run_life(case):
                 s.spawn(notifier, 'notifier')
                 out.feat('unsolicited-value-notifications')
             try:
-                if at.get('sync'):
+                if at.get('nodriver'):
+                    # an attempt for which there is no usable driver: no driver claims the URI, or the driver cannot open its device.
+                    # Nothing was opened, so the application does not call close_link() afterwards.
+                    bad_uri = 'bogus://1' if at['nodriver'] == 'unknown' else 'sim://absent1'
+                    out.feat('attempt-without-usable-driver')
+                    if at.get('sync'):
+                        tmp_scf = SyncCrazyflie(bad_uri, cf=cf)
+
+                        def user_thread():
+                            try:
+                                tmp_scf.open_link()
+                                user['open'] = 'returned'
+                            except Exception as e:  # noqa
+                                user['open'] = 'raised %r' % (e,)
+                            user['done'] = True
+                        s.spawn(user_thread, 'syncuser')
+                        s.sleep(10.0)
+                        if not user['done']:
+                            out.fail('life:sync-open_link-never-returns', '%s: no usable driver; events %r' % (desc, [e[1] for e in rec.events[ev0:]]))
+                            aborted = True
+                            break
+                        if user['open'] == 'returned':
+                            out.fail('life:sync-open-returned-unconnected', '%s: no usable driver, open_link() returned normally' % desc)
+                        user['open'] = None
+                    else:
+                        cf.open_link(bad_uri)
+                        s.sleep(5.0)
+                elif at.get('sync'):
                     def user_thread():
                         try:
                             scf.open_link()
@@ -287,7 +316,7 @@ def run_life(case):
                 aborted = True
                 break
             evs = [e[1] for e in rec.events[ev0:]]
-            nerr = 1 if env.world.fault_fired else 0
+            nerr = 1 if env.world.fault_fired or at.get('nodriver') else 0
             if os.environ.get('C02_DEBUG'):
                 print('DEBUG attempt', ai, 'nerr', nerr, 'ctx', env.world.fault_context, 'evs', evs)
             if nerr and env.world.fault_context.get('dispatcher_busy'):
@@ -300,7 +329,7 @@ def run_life(case):
                 break
             if (nerr or closes[0]) and cf.link is not None:
                 out.fail('life:link-not-released', '%s: link still set after %s' % (desc, 'fault' if nerr else 'close'))
-            if (nerr or closes[0]) and cf.link is None and getattr(cf.state, 'name', cf.state) not in ('DISCONNECTED', 0):
+            if (nerr or closes[0]) and not at.get('nodriver') and cf.link is None and getattr(cf.state, 'name', cf.state) not in ('DISCONNECTED', 0):
                 out.fail('life:state-not-disconnected', '%s: state %r at quiescence after %s; events %r' % (desc, cf.state, 'fault' if nerr else 'close', evs))
             send_lock = getattr(cf, '_send_lock', None)
             if send_lock is not None and send_lock.locked():
@@ -364,6 +393,7 @@ _attempt = st.fixed_dictionaries({
                                                           'empty_msg': st.sampled_from([False, False, False, True])})),
     'close_at': st.one_of(st.none(), st.none(), st.sampled_from([0.0, 0.0005, 0.002, 0.005, 0.01, 0.02, 0.05, 0.3, 2.0])),
     'sync': st.booleans(),
+    'nodriver': st.sampled_from([None, None, None, None, None, None, None, 'unknown', 'absent']),
     'close_in_cb': st.one_of(st.sampled_from([None, None, None, None, 'link_established', 'connected', 'fully_connected']),
                              st.builds(lambda p_, k_: 'port:%d:%d' % (p_, k_), st.sampled_from([2, 5, 4, 13]), st.integers(0, 12)))})
 
@@ -448,6 +478,19 @@ def extra_value_cases(tier):
                        'attempts': [{'fault': None, 'close_at': 1.0, 'sync': sync}], 'reread': rr, 'schedule': {'prefix': [], 'seed': 1, 'rate': 0.0}}
 
 
+def nodriver_cases(tier):
+    """histories with attempts for which there is no usable driver (unknown scheme / the driver cannot open its device), before, between
+    and after healthy and failing attempts, plain and through SyncCrazyflie"""
+    ok = {'fault': None, 'close_at': 0.5}
+    bad = {'fault': {'k': 9, 'reporter': 'driver-quiet'}, 'close_at': None}
+    for kind in ('unknown', 'absent'):
+        nd = {'nodriver': kind}
+        for hist in ([nd], [nd, nd], [ok, nd], [nd, ok, nd], [bad, nd], [nd, bad]):
+            for sync in (False, True):
+                yield {'nlog': 2, 'nparam': 3, 'mems': [1], 'version': 10, 'needs_resending': False, 'delays': [0.001],
+                       'attempts': [dict(a, sync=sync) for a in hist], 'schedule': {'prefix': [], 'seed': 1, 'rate': 0.0}}
+
+
 def close_fault_cases(tier):
     """the link fails at the very packet close_link() sends (the zero setpoint), reported from inside that send: the error is then
     processed by a thread of its own while close_link() carries on - at every phase of the session, under several schedules"""
@@ -478,5 +521,6 @@ def subchecks(tier):
         Sub('close-fault-sweep', run_life, cases=close_fault_cases, distinct_by_construction=True),
         Sub('history-sweep', run_life, cases=history_sweep_cases, distinct_by_construction=True),
         Sub('extra-values', run_life, cases=extra_value_cases, distinct_by_construction=True),
+        Sub('no-driver-histories', run_life, cases=nodriver_cases, distinct_by_construction=True),
         Sub('single-preemptions', run_life, cases=single_preemption_cases, distinct_by_construction=True),
     ]
